@@ -18,7 +18,7 @@ Definition u_sealed_dgram (v : V) : V :=
   vres VB (to_bytes crc32 toy_seal (Some (as_int (vnth v 0))) (header_of_V (vnth v 1))
                     (map wmsg_of_V (as_list (vnth v 2)))).
 
-(* UNIT 903 sealed_parse : [key; header(as parsed); datagram in the toy form] -> Packet.from_bytes(hdr, key, d) *)
+(* UNIT 903 pack_sealed_parse : [key; header(as parsed); datagram in the toy form] -> Packet.from_bytes(hdr, key, d) *)
 Definition u_sealed_parse (v : V) : V :=
   vres (fun l => VL (map V_of_wmsg l))
        (from_bytes crc32 toy_open (Some (as_int (vnth v 0))) (header_of_V (vnth v 1)) (as_bytes (vnth v 2))).
